@@ -28,7 +28,8 @@ type Gen struct {
 	GenericT bool   // allow the generic type names (Object, Activity, Actor, IntransitiveActivity)
 }
 
-var benignTexts = []string{"hello", "<p>Hi &amp; bye</p>", "multi word text", "Ünïcödé ✓ 日本語", "a/b?c=d#e", "it's 100% fine; ok!", "tabless, newline-less text with: colon, comma"}
+var benignTexts = []string{"hello", "<p>Hi &amp; bye</p>", "multi word text", "Ünïcödé ✓ 日本語", "a/b?c=d#e", "it's 100% fine; ok!", "tabless, newline-less text with: colon, comma",
+	"line\u2028sep\u2029end", "say \"hi\" \\ back", "two\nlines\tand a tab", "😀 astral 𝄞"}
 
 func NewGen(r *rand.Rand) *Gen {
 	return &Gen{R: r, PSet: 0.25, MaxList: 3, Texts: benignTexts, Base: "https://example.com", GenericT: true}
@@ -234,6 +235,12 @@ func (g *Gen) ListShape(shape string) vocab.ItemCollection {
 		return g.longList(9)
 	case "l33":
 		return g.longList(33)
+	case "l-hostroot":
+		// a host root with and without its slash next to other ids on the same host (distinct under the IRI equivalence too)
+		g.n++
+		h, h2 := fmt.Sprintf("https://h%d.example.com", g.n), fmt.Sprintf("https://k%d.example.com", g.n)
+		return g.list(vocab.IRI(h+"/"), vocab.IRI(h+"/users/1"), &vocab.Object{ID: vocab.IRI(h + "/o/2"), Type: vocab.NoteType, Name: g.NLVShape("nlv1u")},
+			vocab.IRI(h2), vocab.IRI(h2+"/a"), &vocab.Actor{ID: vocab.IRI(h2 + "/actor"), Type: vocab.PersonType})
 	case "l-empty":
 		return vocab.ItemCollection{} // set but empty: the normal form says absent
 	case "l2":
@@ -254,7 +261,7 @@ func FieldShapes(t reflect.Type, exact bool) []string {
 		for _, is := range ItemShapes(true) {
 			s = append(s, "l:"+is)
 		}
-		return append(s, "l2", "l3", "l-empty", "l9", "l33")
+		return append(s, "l2", "l3", "l-empty", "l9", "l33", "l-hostroot")
 	case t == NlvT:
 		return []string{"nlv1u", "nlv1t", "nlv2", "nlv3", "nlv-empty", "nlv9", "nlv-long-text"}
 	case t == TimeT:
@@ -554,6 +561,53 @@ func (g *Gen) BuildSingle(c SingleCase) any {
 	v.FieldByName("Type").Set(reflect.ValueOf(vocab.ActivityVocabularyType(c.Kind.SpecificType())))
 	g.SetShape(v.Field(c.Field.Index), c.Field.Type, c.Shape)
 	return p
+}
+
+// BareCase: an embedded object that carries nothing but one property (no id; with or without a type name), so that whether
+// it counts as "not empty" hangs on that one property.
+type BareCase struct {
+	Kind     StructKind
+	Field    Field
+	WithType bool
+}
+
+func (b BareCase) String() string {
+	t := "untyped"
+	if b.WithType {
+		t = "typed"
+	}
+	return fmt.Sprintf("bare %s %s with only %s", t, b.Kind.Name, b.Field.Term)
+}
+
+func BareCases() []BareCase {
+	var out []BareCase
+	for _, k := range Kinds {
+		if k.Name == "Link" {
+			continue
+		}
+		for _, f := range k.Fields() {
+			if f.Name == "ID" || f.Name == "Type" {
+				continue
+			}
+			out = append(out, BareCase{k, f, true})
+			if k.Name == "Object" {
+				out = append(out, BareCase{k, f, false}) // an untyped object decodes as Object
+			}
+		}
+	}
+	return out
+}
+
+// BuildBare returns the bare object and a host that embeds it.
+func (g *Gen) BuildBare(c BareCase, exact bool) (inner vocab.Item, host any) {
+	p := c.Kind.New()
+	v := reflect.ValueOf(p).Elem()
+	if c.WithType {
+		v.FieldByName("Type").Set(reflect.ValueOf(vocab.ActivityVocabularyType(c.Kind.SpecificType())))
+	}
+	g.SetShape(v.Field(c.Field.Index), c.Field.Type, FieldShapes(c.Field.Type, exact)[0])
+	inner = p.(vocab.Item)
+	return inner, &vocab.Activity{ID: g.IRI(), Type: vocab.LikeType, Object: inner, Tag: vocab.ItemCollection{g.IRI(), inner}}
 }
 
 // PairCase identifies one case of the field-pair layer.
